@@ -3,6 +3,6 @@ CONSTANT Configs <- StopTimeoutQuick
 SPECIFICATION MCSpec
 VIEW MCView
 CONSTRAINT ExecBound
-INVARIANTS TypeOK C05_NoLateFresh
+INVARIANTS TypeOK C05_NoLateFresh C05_NoLateStart C05_TermReachesAll
 
 CHECK_DEADLOCK FALSE
